@@ -20,6 +20,13 @@ import (
 	"math/rand"
 	"sort"
 	"strings"
+	"bytes"
+	"os"
+	"runtime"
+	"sync/atomic"
+	"time"
+	"path/filepath"
+	"sync"
 )
 
 func init() {
@@ -586,7 +593,239 @@ func (c *c16Run) settle() {
 	}
 }
 
+// ---- API level: the real NewListener / Run / NewSessionManager / GetStream / PutBack / Close over a unix socket ----
+
+var c16ApiSeq uint64
+
+type c16EchoCB struct{}
+
+var c16DbgMu sync.Mutex
+var c16DbgSessions = map[*Session]string{}
+
+func (c16EchoCB) OnShutdown(reason string) {}
+func (c16EchoCB) OnNewStream(s *Stream) {
+	if os.Getenv("VERIF_DEBUG") != "" {
+		c16DbgMu.Lock()
+		c16DbgSessions[s.session] = "server"
+		c16DbgMu.Unlock()
+	}
+	go func() {
+		for {
+			hd, err := s.BufferReader().ReadBytes(4)
+			if err != nil {
+				return
+			}
+			n := int(hd[0]) | int(hd[1])<<8 | int(hd[2])<<16 | int(hd[3])<<24
+			body, err := s.BufferReader().ReadBytes(n)
+			if err != nil {
+				return
+			}
+			out := append(append([]byte{}, hd...), body...)
+			s.BufferReader().ReleasePreviousRead()
+			if _, err := s.BufferWriter().WriteBytes(out); err != nil {
+				return
+			}
+			if err := s.Flush(false); err != nil {
+				return
+			}
+		}
+	}()
+}
+
+// api <file|memfd> <sessions> <rounds>: echo rounds through pooled streams, one session lost and healed, everything closed
+func c16Api(f []string) vResult {
+	res := vResult{noModel: true, out: []string{"done"}}
+	setFail := func(k, w string) {
+		if res.specFail == "" {
+			res.specFail, res.key = w, k
+		}
+	}
+	mt := MemMapTypeDevShmFile
+	if f[1] == "memfd" {
+		mt = MemMapTypeMemFd
+	}
+	nsess, rounds := vAtoi(f[2]), vAtoi(f[3])
+	if nsess < 1 || nsess > 3 || rounds < 1 || rounds > 8 {
+		res.out = []string{"bad-op"}
+		return res
+	}
+	internalLogger = &logger{"", io.Discard, 3}
+	n := atomic.AddUint64(&c16ApiSeq, 1)
+	prefix := fmt.Sprintf("/dev/shm/verif_api_%d_%d", os.Getpid(), n)
+	path := fmt.Sprintf("/tmp/verif_api_%d_%d.sock", os.Getpid(), n)
+	c12WarmOnce.Do(func() {
+		w := &c12Run{tags: map[string]bool{}}
+		w.scenario([]string{"pair", "file"})
+		w.scenario([]string{"pair", "memfd"})
+	})
+	runtime.GC()
+	fd0, maps0 := c12CountFds(), c12CountMaps(prefix)
+	lcfg := &ListenerConfig{Config: c12Config(prefix+"_srv", mt), Network: "unix", ListenPath: path}
+	ln, err := NewListener(c16EchoCB{}, lcfg)
+	if err != nil {
+		setFail("setup", "NewListener: "+err.Error())
+		return res
+	}
+	ln.SetUnlinkOnClose(true)
+	go ln.Run()
+	scfg := DefaultSessionManagerConfig()
+	scfg.Config = c12Config(prefix, mt)
+	scfg.Network, scfg.Address = "unix", path
+	scfg.SessionNum = nsess
+	scfg.rebuildInterval = 50 * time.Millisecond
+	if os.Getenv("VERIF_DEBUG") != "" {
+		vNewClientSessionHook = func(sessionID int, epochID, randID uint64, config *SessionManagerConfig) (*Session, error) {
+			cs, err := newClientSession(sessionID, epochID, randID, config)
+			if cs != nil {
+				c16DbgMu.Lock()
+				c16DbgSessions[cs] = fmt.Sprintf("client-%d", sessionID)
+				c16DbgMu.Unlock()
+			}
+			return cs, err
+		}
+		defer func() { vNewClientSessionHook = nil }()
+	}
+	sm, err := NewSessionManager(scfg)
+	if err != nil {
+		ln.Close()
+		setFail("api-call-fails", "NewSessionManager against a running listener: "+err.Error())
+		return res
+	}
+	dbgRef := func(when string) {
+		if os.Getenv("VERIF_DEBUG") == "" {
+			return
+		}
+		bufferManagers.Lock()
+		for k, bm := range bufferManagers.bms {
+			if strings.HasPrefix(k, prefix) {
+				fmt.Fprintf(os.Stderr, "DEBUG ref %s: %s = %d\n", when, k, bm.refCount)
+			}
+		}
+		bufferManagers.Unlock()
+	}
+	dbgRef("after NewSessionManager")
+	echo := func(tag string) bool {
+		st, err := sm.GetStream()
+		if err != nil {
+			setFail("api-call-fails", tag+": GetStream: "+err.Error())
+			return false
+		}
+		body := []byte(fmt.Sprintf("%s-payload-%d", tag, n))
+		msg := append([]byte{byte(len(body)), byte(len(body) >> 8), 0, 0}, body...)
+		st.SetDeadline(time.Now().Add(8 * time.Second))
+		if _, err := st.BufferWriter().WriteBytes(msg); err != nil {
+			setFail("api-call-fails", tag+": WriteBytes: "+err.Error())
+			return false
+		}
+		if err := st.Flush(false); err != nil {
+			setFail("api-call-fails", tag+": Flush: "+err.Error())
+			return false
+		}
+		got, err := st.BufferReader().ReadBytes(len(msg))
+		if err != nil {
+			setFail("api-call-fails", tag+": reading the echo: "+err.Error())
+			return false
+		}
+		if !bytes.Equal(got, msg) {
+			setFail("api-echo-mismatch", fmt.Sprintf("%s: sent %q, the echo is %q", tag, msg, got))
+		}
+		st.BufferReader().ReleasePreviousRead()
+		sm.PutBack(st)
+		return true
+	}
+	ok := true
+	for r := 0; r < rounds && ok; r++ {
+		ok = echo(fmt.Sprintf("round-%d", r))
+	}
+	if ok {
+		// S (C17): a lost session is replaced (same pool), the others are left alone
+		lost := sm.pools[0].Session()
+		others := make([]*Session, 0)
+		for _, p := range sm.pools[1:] {
+			others = append(others, p.Session())
+		}
+		dbgRef("before loss")
+		lost.Close()
+		healed := c19WaitFor(10*time.Second, func() bool {
+			s := sm.pools[0].Session()
+			return s != lost && s != nil && !s.IsClosed() && s.IsHealthy()
+		})
+		dbgRef("after heal")
+		time.Sleep(1500 * time.Millisecond)
+		dbgRef("1.5 s after heal")
+		if !healed {
+			setFail("not-healed", "the session of pool 0 was lost while the server is reachable; 10 s later (rebuild interval 50 ms) the pool still has no working session")
+		}
+		for i, p := range sm.pools[1:] {
+			if p.Session() != others[i] {
+				setFail("healthy-session-replaced", fmt.Sprintf("pool %d was healthy, yet its session was replaced when pool 0 lost its session", i+1))
+			}
+		}
+		for r := 0; r < 2*nsess*int(sessionRoundRobinThreshold) && ok && r < 40; r++ {
+			ok = echo(fmt.Sprintf("after-heal-%d", r))
+		}
+	}
+	if os.Getenv("VERIF_DEBUG") != "" {
+		ln.sessions.sessionMu.Lock()
+		for ss := range ln.sessions.data {
+			c16DbgMu.Lock()
+			if _, ok := c16DbgSessions[ss]; !ok {
+				c16DbgSessions[ss] = "server(no stream)"
+			}
+			c16DbgMu.Unlock()
+		}
+		fmt.Fprintf(os.Stderr, "DEBUG listener tracks %d sessions\n", len(ln.sessions.data))
+		ln.sessions.sessionMu.Unlock()
+	}
+	dbgRef("before Close")
+	sm.Close()
+	time.Sleep(1500 * time.Millisecond)
+	dbgRef("1.5 s after sm.Close")
+	ln.Close()
+	// S (C14/C17): closing the manager and the listener releases everything
+	for t0 := time.Now(); time.Since(t0) < 8*time.Second; {
+		runtime.GC()
+		if c12CountFds() <= fd0 && c12CountMaps(prefix) <= maps0 && c12CountFiles(prefix) == 0 {
+			break
+		}
+		time.Sleep(5 * time.Millisecond)
+	}
+	if fd1, m1, fl := c12CountFds(), c12CountMaps(prefix), c12CountFiles(prefix); fd1 > fd0 || m1 > maps0 || fl > 0 {
+		left, _ := filepath.Glob(prefix + "*")
+		if os.Getenv("VERIF_DEBUG") != "" {
+			bufferManagers.Lock()
+			for k, bm := range bufferManagers.bms {
+				if strings.HasPrefix(k, prefix) {
+					fmt.Fprintf(os.Stderr, "DEBUG left bm %s ref=%d\n", k, bm.refCount)
+				}
+			}
+			bufferManagers.Unlock()
+			c16DbgMu.Lock()
+			for ss, who := range c16DbgSessions {
+				fmt.Fprintf(os.Stderr, "DEBUG session %s closed=%v qmNil=%v streams=%v bm=%v\n", who, ss.IsClosed(), ss.queueManager == nil, ss.streams == nil, ss.bufferManager != nil)
+			}
+			c16DbgMu.Unlock()
+			buf := make([]byte, 1<<20)
+			nb := runtime.Stack(buf, true)
+			for _, blk := range strings.Split(string(buf[:nb]), "\n\n") {
+				if strings.Contains(blk, "shmipc-go.(*Session)") || strings.Contains(blk, "epollDispatcher") || strings.Contains(blk, "SessionManager") {
+					fmt.Fprintf(os.Stderr, "DEBUG goroutine:\n%s\n\n", blk)
+				}
+			}
+		}
+		setFail("close-leaves-resources", fmt.Sprintf("manager and listener closed, yet %d descriptor(s) more than before, %d mapping(s) and %d file(s) remain: %v", fd1-fd0, m1-maps0, fl, left))
+	}
+	os.Remove(path)
+	res.tags = []string{"api-level-echo-heal-close"}
+	return res
+}
+
 func c16Exec(ops []string) vResult {
+	if len(ops) == 1 && strings.HasPrefix(ops[0], "api ") {
+		if f := vFields(ops[0]); len(f) == 4 {
+			return c16Api(f)
+		}
+	}
 	c := &c16Run{tags: map[string]bool{}}
 	var out []string
 	defer func() {
@@ -644,6 +883,9 @@ func c16Exec(ops []string) vResult {
 }
 
 func c16Gen(r *rand.Rand, tier string, idx int, prop string) []string {
+	if prop == "C17" && idx%200 == 77 {
+		return []string{fmt.Sprintf("api %s %d %d", []string{"file", "memfd"}[r.Intn(2)], 1+r.Intn(3), 1+r.Intn(4))}
+	}
 	var ops []string
 	n := 6 + r.Intn(30)
 	// server side
